@@ -187,3 +187,21 @@ fn k_conn_refcount__sync_source_reaches_first_subscriber() {
   assert!(l1.is(&[EV_N | 7]), "conn.ref_count: the subscriber that triggered the connect missed what the source emitted while being connected");
   kani::cover!(true, "harness reaches its end");
 }
+
+// PROBE (known finding): a COLD source that emits synchronously while being subscribed, through replay(): the first subscriber must
+// get each item once.  (ReplaySubject::observable attaches the live forwarding observer first and replays the history afterwards;
+// the items the source pushed in between are both forwarded live and replayed.)
+#[kani::proof]
+#[kani::unwind(3)]
+fn k_conn_probe__replay_of_a_synchronous_source_delivers_each_item_once() {
+  let l1 = Log::new();
+  let (a, b): (u8, u8) = (kani::any(), kani::any());
+  let src: Observable<'static, u8> = Observable::create(move |s: Observer<'static, u8>| {
+    s.next(a);
+    s.next(b);
+  });
+  let rp = src.replay();
+  let _s1 = attach(&rp.observable(), l1);
+  assert!(l1.is(&[EV_N | a as u32, EV_N | b as u32]), "conn.replay.sync: the first subscriber of replay() over a synchronously emitting source did not get each item exactly once");
+  kani::cover!(true, "harness reaches its end");
+}
